@@ -101,7 +101,7 @@ Qed.
 (* the clauses                                                         *)
 Lemma getters_ok c h s : Rel c h s -> m_getters c h (observe c s) = true.
 Proof.
-  intros (Rn & Rp & Rl & Ra & Rm). unfold m_getters. cbn [observe o_paused o_mig o_trap].
+  intros (Rn & Rp & Rl & Ra & Rm & Ru). unfold m_getters. cbn [observe o_paused o_mig o_trap].
   rewrite Rp, Ra, !Bool.eqb_reflx. cbn [andb negb]. rewrite !andb_true_r.
   apply andb_true_iff. split.
   - apply forallb_forall. intros x Hx. rewrite (gl_observe c s x (in_universe c x Hx)), Rl.
@@ -143,10 +143,10 @@ Lemma forallb_uni c (P : addr -> bool) :
   (forall x, in_uni c x = true -> P x = true) -> forallb P (universe c) = true.
 Proof. intros H. apply forallb_forall. intros x Hx. apply H, in_universe, Hx. Qed.
 
-Lemma effects_ok c s o s' : wf_op c o = true -> effects s o s' ->
-  m_effects c (observe c s) o true (observe c s') = true.
+Lemma effects_ok c h s o s' : wf_op c o = true -> Rel c h s -> effects s o s' ->
+  m_effects c h (observe c s) o true (observe c s') = true.
 Proof.
-  intros Hw (e1 & e2 & e3 & e4 & e5). unfold m_effects, implies. cbn [negb orb].
+  intros Hw (Rn & _ & _ & _ & _ & Ru) (e1 & e2 & e3 & e4 & e5). unfold m_effects, implies. cbn [negb orb].
   repeat (apply andb_true_iff; split).
   - cbn [observe o_supply]. rewrite e1. apply Z.eqb_eq.
     destruct o; reflexivity.
@@ -155,7 +155,7 @@ Proof.
   - apply forallb_uni. intros x Hx. apply forallb_uni. intros y Hy.
     specialize (e3 x y). rewrite (ga_observe c s' x y Hx Hy).
     destruct o; try (rewrite e3, (exp_alw_obs c s _ x y Hw Hx Hy); apply Z.eqb_refl).
-    rewrite (ga_observe c s x y Hx Hy). destruct e3 as [e3|e3]; rewrite e3, Z.eqb_refl; [reflexivity|apply orb_true_r].
+    rewrite (ga_observe c s x y Hx Hy), e3, Ru, Rn. apply Z.eqb_refl.
   - cbn [observe o_cap]. rewrite e4. destruct o; apply optZ_eqb_refl.
   - cbn [observe o_data]. rewrite e5. destruct o; apply optZ_eqb_refl.
 Qed.
@@ -177,6 +177,27 @@ Proof.
     rewrite andb_true_r; apply Z.leb_le; lia.
 Qed.
 
+Lemma reopen_ok c h v p cl ok : v = view_obs p -> ok = expected_ok c h v cl -> m_reopen c h p cl ok = true.
+Proof.
+  intros -> Hex. unfold m_reopen. rewrite <- Hex, Bool.eqb_reflx. unfold implies. rewrite !orb_true_r. cbn [andb].
+  destruct cl as [o au]. cbn [fst snd]. destruct o; try reflexivity.
+  rewrite Hex. unfold expected_ok. cbn [fst snd].
+  destruct (kind_eqb (knd c) KUpgV1 || kind_eqb (knd c) KUpgV2), (h_armed h), (has_auth au operator), (N.eqb operator (owner c)); reflexivity.
+Qed.
+
+Lemma shape_ok c s : m_shape c (observe c s) = true.
+Proof.
+  unfold m_shape, observe. cbn [o_bal o_alw o_list o_mgr]. rewrite !map_length, universe_length, Nat.eqb_refl. cbn [andb].
+  rewrite ?andb_true_r. apply forallb_forall. intros r Hr. apply in_map_iff in Hr. destruct Hr as (x & <- & _).
+  rewrite map_length, universe_length. apply Nat.eqb_refl.
+Qed.
+
+Lemma all_read_ok c s : all_read (observe c s) = true.
+Proof.
+  unfold all_read, observe. cbn [o_list]. apply forallb_forall. intros e He. apply in_map_iff in He.
+  destruct He as (x & <- & _). reflexivity.
+Qed.
+
 Lemma mon_step_model c h s cl : wf_call c cl = true -> Inv c s -> Rel c h s ->
   mon_step c h (observe c s) (cl, snd (step c s cl), observe c (fst (step c s cl))) = true.
 Proof.
@@ -195,13 +216,13 @@ Proof.
   { destruct (snd (step c s cl)) eqn:E.
     - apply (cap_clause c h s cl _ Hw); [symmetry; exact Hex|apply Heff; reflexivity].
     - unfold m_cap, implies. destruct (fst cl); try reflexivity. rewrite andb_false_r. reflexivity. }
-  assert (A4 : m_exact c h (observe c s) cl (snd (step c s cl)) = true)
-    by (unfold m_exact; rewrite <- Hex; apply Bool.eqb_reflx).
-  assert (A5 : m_effects c (observe c s) (fst cl) (snd (step c s cl)) (observe c (fst (step c s cl))) = true).
+  assert (A4 : m_reopen c h (observe c s) cl (snd (step c s cl)) = true)
+    by (eapply reopen_ok; [reflexivity|exact Hex]).
+  assert (A5 : m_effects c h (observe c s) (fst cl) (snd (step c s cl)) (observe c (fst (step c s cl))) = true).
   { destruct (snd (step c s cl)) eqn:E.
-    - apply effects_ok; [exact Hw|apply Heff; reflexivity].
+    - apply effects_ok; [exact Hw|exact HR|apply Heff; reflexivity].
     - reflexivity. }
-  unfold mon_step. rewrite A1, Hcl, A2, A3, A4, A5.
+  unfold mon_step. rewrite A1, Hcl, A2, A3, A4, A5, shape_ok.
   repeat match goal with H : _ = true |- _ => rewrite H end. reflexivity.
 Qed.
 
@@ -215,12 +236,35 @@ Proof.
   cbn [hist_next snd fst]. apply IH; assumption.
 Qed.
 
+Lemma last_obs_model c cs : forall s, exists s', last_obs_from (observe c s) (model_steps c s cs) = observe c s'.
+Proof.
+  induction cs as [|cl r IH]; intros s; [exists s; reflexivity|].
+  cbn [model_steps last_obs_from snd]. apply IH.
+Qed.
+
+Lemma init_ok c : ctor_ok c = true -> mon_init c (observe c (init c)) = true.
+Proof.
+  intros Hc. unfold mon_init.
+  rewrite (getters_ok c (hist0 c) (init c) (init_rel c)), shape_ok, all_read_ok. cbn [andb].
+  repeat (apply andb_true_iff; split).
+  - unfold init, observe. cbn [o_cap]. destruct (knd c); cbn; try reflexivity. apply Z.eqb_refl.
+  - unfold init, init_supply_of, observe. cbn [o_supply]. destruct (knd c); cbn; apply Z.eqb_refl.
+  - apply forallb_uni. intros x Hx. rewrite (gb_observe c _ x Hx). unfold init, init_supply_of.
+    destruct (knd c); cbn [set_bal set_supply set_allowed set_capv bal empty_state]; unfold updZ;
+      destruct (N.eqb x (owner c)); apply Z.eqb_refl.
+  - apply forallb_uni. intros x Hx. apply forallb_uni. intros y Hy. rewrite (ga_observe c _ x y Hx Hy).
+    rewrite allowance_unfold. unfold init. destruct (knd c); cbn; destruct (0 <? now0 c); reflexivity.
+  - unfold init, observe. cbn [o_data]. destruct (knd c); reflexivity.
+Qed.
+
 Theorem check_accepts_model : forall c cs,
   wf_cfg c = true -> forallb (wf_call c) cs = true ->
   check (observe_model c cs) = (0%N, 0%N, 0%N).
 Proof.
-  intros c cs Hc Hw. unfold check, diff, mon, observe_model. cbn [t_cfg t_obs0 t_steps].
-  rewrite obs_eqb_refl, diff_model.
-  unfold mon_init. rewrite (getters_ok c (hist0 c) (init c) (init_rel c)).
-  rewrite (mon_model c cs _ _ _ Hw (init_inv c Hc) (init_rel c)). reflexivity.
+  intros c cs Hc Hw.
+  assert (Hct : ctor_ok c = true) by (unfold wf_cfg in Hc; apply andb_true_iff in Hc; apply Hc).
+  unfold check, diff, mon, observe_model, last_obs. cbn [t_cfg t_obs0 t_steps].
+  rewrite Hct, obs_eqb_refl, diff_model, (init_ok c Hct).
+  rewrite (mon_model c cs _ _ _ Hw (init_inv c Hc) (init_rel c)).
+  destruct (last_obs_model c cs (init c)) as (s' & ->). rewrite all_read_ok. reflexivity.
 Qed.
